@@ -4,6 +4,7 @@ structural facts and every value are compared with the statement-derived expecta
 Reader direction: logical DOMs are rendered by refxml.encode with every freedom of the document
 varied, for `vh readcmp --prop C05`."""
 import copy, hashlib, json, os, random, sys
+sys.setrecursionlimit(20000)  # trees of the size scenarios are hundreds of levels deep
 
 sys.path.insert(0, os.path.dirname(os.path.dirname(os.path.abspath(__file__))))
 import refxml, refattr  # noqa: E402
